@@ -118,3 +118,9 @@ def generate(rng, n, tier):
 from harness import noprec as _np_fam                   # noqa: E402
 from harness.mixins import add_family as _add_family    # noqa: E402
 _add_family(globals(), _np_fam, 'noprec', _np_fam.oracle, share=0.1)
+
+
+# the correspondence of event times with the requests a polled process produces, when the process that is
+# polled lives in a worker (the scheduler asks the worker, not the wrapper's static parameter)
+from harness import adaptpar as _ap                     # noqa: E402
+_add_family(globals(), _ap, 'adaptpar', _ap.oracle, share=0.01)
